@@ -7,6 +7,7 @@ ids="$*"; [ -z "$ids" ] && ids=$(ls seeded)
 fail=0
 for id in $ids; do
   prop=$(python3 -c "import json;print(json.load(open('seeded/$id/meta.json'))['property'])")
+  if python3 -c "import json,sys;sys.exit(0 if 'superseded' in json.load(open('seeded/$id/meta.json')) else 1)"; then echo "$id: skipped (superseded by a fix, see meta.json)"; continue; fi
   git -C /repo apply "$PWD/seeded/$id/patch.diff" || { echo "$id: patch does not apply"; fail=1; continue; }
   ./check "$prop" > /tmp/selftest_$id.out 2>&1; rc=$?
   git -C /repo checkout -- .
